@@ -84,6 +84,8 @@ struct Capacities {
     size_t buffer_cap() const { size_t s = 0; for (size_t j = 0; j <= eff_buffer_level; ++j) s += level_cap(j); return s; }
 };
 
+inline bool lifetime_prop(const std::string &prop) { return prop == "C19"; }
+
 struct Op {
     std::string kind, raw;
     std::vector<long double> a;
@@ -172,11 +174,16 @@ struct DynClass {
         // operations
         size_t nops = boundary ? (size_t) cfg.range(0, 12) : (g.tier == "thorough" ? (cfg.chance(100) ? (size_t) cfg.range(400, 5000) : (size_t) cfg.range(1, 600)) : (size_t) cfg.range(1, 400));
         if (large) nops = std::min<size_t>(nops, 150);
+        // growth mode: with the default buffer (585 entries for base 8) short histories never leave the buffer; a long
+        // insert-heavy history over many distinct keys makes new levels appear after construction
+        bool growth = !boundary && !large && !lifetime_prop(g.prop) && cfg.chance(60);
+        if (growth) { nops = (size_t) cfg.range(650, 1800); p.set("growth", 1); }
         unsigned w_ins = (unsigned) cfg.range(2, 10), w_erase = (unsigned) cfg.range(0, 6), w_query = (unsigned) cfg.range(1, 6);
         bool lifetime = g.prop == "C19";
         bool inject = g.prop == "C20" || cfg.chance(300);
         bool derived = false;
         for (size_t i = 0; i < nops; ++i) {
+            if (growth && work.chance(800)) { p.item('O', "I " + key_text(km.at(work.range(0, km.U))) + " " + std::to_string(next_value++)); continue; }
             unsigned r = (unsigned) work.below(w_ins + w_erase + w_query);
             if (inject && fault.chance(g.prop == "C20" ? 150 : 30)) {
                 if (VM::has_reserved && fault.coin()) p.item('O', "X " + key_text(dk()));           // reserved mapped value
